@@ -25,7 +25,7 @@ use crate::oracle::verify;
 use crate::proj::{self, St};
 use crate::report::*;
 use crate::rng::{fnv, Rng};
-use crate::sim::{run_decisions, World};
+use crate::sim::{run_decisions, standard_peers, World};
 use crate::tamper::{cids_of_peer, repair, resign};
 use serde_json::{json, Value};
 use std::collections::{BTreeMap, BTreeSet};
@@ -424,6 +424,10 @@ pub fn run(cfg: &Cfg) -> Report {
             }
         }
     });
+    let mut stats = stats;
+    if cfg.only_case.is_none() {
+        unsigned_unused_result(cfg, &mut stats);
+    }
     Report {
         prop: "C14",
         level: "fault_enumeration",
@@ -436,5 +440,37 @@ pub fn run(cfg: &Cfg) -> Report {
             "ground truth = the results every peer produced in the honest history of the same particle; relocation between two calls with identical peer, service, function and arguments has no effect on the data and is not counted".into(),
             "the position clause (3) is judged only when the output has the same number of states as the output for the untampered data".into(),
         ],
+    }
+}
+
+/// A call without an output is recorded as `executed(unused(value id))`: the state carries no service-result id,
+/// so no signature covers it. Crafted data from the attacker marks a pending call of a third peer that way; the
+/// receiver must not take it for an executed call of that peer.
+fn unsigned_unused_result(cfg: &Cfg, st: &mut Stats) {
+    let peers = standard_peers(3);
+    let (r, m, victim) = (&peers[0], &peers[1], &peers[2]);
+    for (k, forged_cid) in ["bagaaihraanythingatall", "bagaaieraxh4bbmpsgdgxpiguou7qwnlh5q7svllgnaggnb5ochnlirlaxhza"].iter().enumerate() {
+        let air = format!("(seq (call \"{}\" (\"svc\" \"f1\") []) (call \"{}\" (\"svc\" \"num1\") [] x))", victim.id, r.id);
+        let w = World::new(3, air, None, &format!("c14-unused-{}-{k}", cfg.seed), 3);
+        let first = invoke(&w.input(r));
+        let Ok(view) = proj::decode(&first.data) else { continue };
+        let mut data = view.data.clone();
+        data["trace"] = json!([{"call": {"executed": {"unused": forged_cid}}}]);
+        resign(&mut data, m, &w.particle_id);
+        let Ok(bytes) = proj::encode_with_versions(&data, &view.data_version, &view.interpreter_version) else { continue };
+        let mut input = w.input(r);
+        input.prev = first.data.clone();
+        input.cur = bytes;
+        let out = invoke(&input);
+        st.inc("tamperings", 1);
+        st.label("operations", "pending-call-of-a-third-peer-marked-executed-unused");
+        let requested: Vec<String> = out.requests.as_ref().map(|r| r.values().map(|q| q.function.clone()).collect()).unwrap_or_default();
+        let accepted = matches!(classify(out.ret_code), CodeClass::Success) && proj::decode(&out.data).ok().map(|v| matches!(proj::states(&v.data).first(), Some(St::CallExec { kind: "unused", .. }))).unwrap_or(false);
+        if accepted {
+            st.inc("tamperings_accepted", 1);
+            st.violation("C14", "unsigned-unused-result-of-another-peer-accepted@pending-call-marked-executed-unused", &format!("attacker {} hands {} data whose only state is executed(unused({forged_cid})) at the pending call addressed to {}: the run ends with code {} and records the call as executed by {} (requests issued next: {:?}); nothing was signed by {}", m.name, r.name, victim.name, out.ret_code, victim.name, requested, victim.name), 2_000_000_000 + k as u64, json!({"attacker": m.name, "receiver": r.name, "victim": victim.name, "forged_state": {"call": {"executed": {"unused": forged_cid}}}, "requests_after": requested}));
+        } else {
+            st.inc("tamperings_rejected", 1);
+        }
     }
 }
